@@ -1,9 +1,10 @@
 """C18 — errors are reported faithfully: class, message, call chain and exit status.  DESIGN.md §5 C18.
 
 Obligations: lean/LaytheVerif/Props/C18.lean (C18_enc_table, C18_lines_aligned, C18_saved_ip_line,
-C18_opt_slots_owned, C18_backtrace_frames, C18_traceback_frames(_partial), C18_nested_catch_above_bottom,
-C18_unwind_across_natives, C18_exit_through_natives, C18_exit_status_anywhere, C18_status, C18_status_kind
-+ the witness of the open finding D181).
+C18_opt_slots_owned, C18_backtrace_frames, C18_traceback_ip_source, C18_traceback_frames (full: however many catch
+clauses declined the error on its way), C18_traceback_no_handler, C18_traceback_all_frames, C18_nested_catch_above_bottom,
+C18_unwind_across_natives, C18_traceback_across_natives, C18_exit_through_natives, C18_exit_status_anywhere, C18_status,
+C18_status_kind + the witness of the open finding D186, C18_witness_filter_error_keeps_abandoned_frames).
 
 Streams:
   lines   (tie A)  for every function of the compile dump of the fixture corpus and of the generated
@@ -15,7 +16,7 @@ Streams:
                    model verdict (Model/Lines.lean run on the chain), anchor verdict (documented compiler rule).
   corpus           corpus/C18/*.json first: plans (judged like the chains) and raw multi-file programs with their
                    expected result (`files` + `correct`), among them the witnesses of the repaired findings
-                   D182–D185 as regression inputs.
+                   D181–D185 as regression inputs.
 """
 import copy
 import json
@@ -426,7 +427,7 @@ def run(ctx):
                        "exit(n)/exit() (also inside native callbacks), import of a module that does not compile (import m / import m: {f}, "
                        "5 kinds of compile error), normal finish; try/catch in any frame (also frames with parameters and the frame that "
                        "drives a lazy iterator) with blank/Error/exact/super/unrelated filters and actions continue/exit(n)/wrap(+inner)/"
-                       "rethrow; print() fillers; layout: each "
+                       "rethrow, every outcome incl. unhandled after any number of declining clauses; print() fillers; layout: each "
                        "token boundary breaks the line with p in {0,.05,.2,.5,.9}, blank lines, comment lines, several statements per "
                        "line; non-trivial = depth>=1 and not a plain finish; distinct by chain description (includes all line numbers)")
     if not proved:
@@ -521,8 +522,9 @@ def run(ctx):
         "import only (an error raised there does not reach the importing frames: fibers are outside this stream)",
         "a failing import: the Spec demands the compile-error status, that nothing after the import ran, and that diagnostics were "
         "written (first stderr line starts with `error`); the text of the diagnostics belongs to C17",
-        "the generator avoids only the signature of the open finding D181 (an unhandled error that passed a declining catch clause); "
-        "the shapes of the repaired D1, D20, D182–D185 are generated and judged by the Spec",
+        "the generator avoids no shape: those of the repaired D1, D20, D181–D185 (D181: an unhandled error that passed declining "
+        "catch clauses) are generated and judged by the Spec; catch filters are always classes, so the signature of the open finding "
+        "D186 (the TypeError of a catch filter that is no subclass of Error lists the abandoned frames) is only replayed, not generated",
     ]
 
 
